@@ -517,8 +517,42 @@ def solve_rule(ctx, rid="R4.E1"):
 
         return (f"solve {elem} [{solver or 'default'}]", solve, thunk)
 
+    def duplicates(elem):
+        def thunk():
+            W = World(repo, lib=W0.lib)
+            md, mesh = domain_mesh(W, elem)
+            dim = md.dim
+            mat, simu = elastic(W, mesh, dim)
+            left = boundary_nodes(W, md, lambda c: c[0] == 0)
+            right = boundary_nodes(W, md, lambda c: c[0] == 2)
+            W.call(simu, "add_dirichlet", iarr(left), [Q(0)] * dim, ["x", "y", "z"][:dim])
+            v, w = Poly.var("v"), Poly.var("w")
+            # the same condition entered twice, then a different value on one of the nodes: a dof holds the SUM of its entries
+            W.call(simu, "add_dirichlet", iarr(right), [v], ["x"])
+            W.call(simu, "add_dirichlet", iarr(right), [v], ["x"])
+            W.call(simu, "add_dirichlet", iarr(right[:1]), [w], ["x"])
+            u = polys(W.call(simu, "Solve"))
+            for k, nn in enumerate(right):
+                want = 2 * v + (w if k == 0 else 0)
+                if not same(u[nn * dim], want):
+                    return f"{elem}: ux of node {nn} was entered as v, v{' and w' if k == 0 else ''}: the solution holds {u[nn * dim]}, the documented convention is the sum {want}"
+            # a condition added after a solve (no Bc_Init) is honoured by the next solve
+            top = [nn for nn in boundary_nodes(W, md, lambda c: c[1] == 1) if nn not in left and nn not in right]
+            W.call(simu, "add_dirichlet", iarr(top), [Poly.var("t")], ["y"])
+            u = polys(W.call(simu, "Solve"))
+            for nn in top:
+                if not same(u[nn * dim + 1], Poly.var("t")):
+                    return f"{elem}: uy of node {nn}, prescribed (value t) after a first solve, is {u[nn * dim + 1]} after the next solve"
+            for k, nn in enumerate(right):
+                if not same(u[nn * dim], 2 * v + (w if k == 0 else 0)):
+                    return f"{elem}: after a further condition was added, ux of node {nn} is {u[nn * dim]}"
+            return None
+
+        return (f"duplicate and incremental conditions {elem}", solve, thunk)
+
     scen = [scenario("TRI3", None), scenario("QUAD4", None), scenario("TRI6", None), scenario("TETRA4", None)]
     scen += [scenario("TRI3", s) for s in solvers if s not in ("petsc", "pypardiso", "lsq_linear")]
+    scen += [duplicates("TRI3"), duplicates("QUAD4")]
     run_scenarios(ctx, r, scen)
 
 
@@ -598,6 +632,17 @@ def loads_rule(ctx, rid="R9.E1"):
                 W.call(simu, "add_neumann", iarr(right), [Poly.var("p")], ["y"])
                 want_res = [Q(0), Poly.var("p"), Q(0)]
                 want_mz = 2 * Poly.var("p")
+            elif kind == "point-yx":
+                # unknowns listed in another order than the canonical one: values[i] belongs to unknowns[i]
+                right = boundary_nodes(W, md, lambda c: c[0] == 2)
+                W.call(simu, "add_neumann", iarr(right), [Poly.var("q"), Poly.var("p")], ["y", "x"])
+                want_res = [Poly.var("p"), Poly.var("q"), Q(0)]
+                want_mz = 2 * Poly.var("q") - Q(1, 2) * Poly.var("p")
+            elif kind == "edge-yx":
+                right = boundary_nodes(W, md, lambda c: c[0] == 2)
+                W.call(simu, "add_surfLoad", iarr(right), [Poly.var("q"), Poly.var("p")], ["y", "x"])
+                want_res = [Poly.var("p") * fac, Poly.var("q") * fac, Q(0)]
+                want_mz = (2 * Poly.var("q") - Q(1, 2) * Poly.var("p")) * fac
             K, C, M, F = W.call(simu, "Get_K_C_M_F")
             b = W.call(simu, "_Solver_Apply_Neumann", "elastic") if False else None
             Fd = None
@@ -625,7 +670,7 @@ def loads_rule(ctx, rid="R9.E1"):
                 continue
             scen.append(scenario(elem, kind))
     scen += [scenario("TRI3", "line-constant"), scenario("QUAD8", "line-constant")]
-    scen += [scenario("TRI3", "volume-array"), scenario("QUAD4", "volume-array"), scenario("TRI6", "volume-array"), scenario("QUAD4", "point"), scenario("TRI3", "point")]
+    scen += [scenario("TRI3", "volume-array"), scenario("QUAD4", "volume-array"), scenario("TRI6", "volume-array"), scenario("QUAD4", "point"), scenario("TRI3", "point"), scenario("TRI3", "point-yx"), scenario("QUAD4", "edge-yx")]
     run_scenarios(ctx, r, scen)
 
 
@@ -813,3 +858,286 @@ def results_rule(ctx, rid="R16.E1"):
         return (f"results {elem}", anchor, thunk)
 
     run_scenarios(ctx, r, [scenario("TRI3"), scenario("TETRA4")])
+
+
+# ---------------------------------------------------------------------------------------------------------------------
+# C05: time stepping, end to end, exact rationals
+def dynamics_rule(ctx, rid="R5.E1"):
+    repo = ctx.repo
+    r = ctx.rule(rid, "time stepping end to end in exact rational arithmetic (Elastic, consistent mass, optional Rayleigh damping and load, step size changed between steps): after every Solve the returned (u, v, a) satisfy the documented update relations of newmark / midpoint / backward Euler and K u_t + C v_t + M a_t = F on every free dof; undamped and unloaded, average-acceleration Newmark and midpoint conserve 1/2 v.M v + 1/2 u.K u EXACTLY over steps of different sizes (also for states of magnitude 1e-12) and backward Euler never increases it", min_instances=6)
+    solve = repo.lookup_method(repo.cls(SIMU), "Solve")
+    W0 = World(repo)
+    ALGO = "EasyFEA.Simulations.Solvers.AlgoType"
+
+    def vec(n, seed, fixed, scale=Q(1)):
+        out = []
+        for k in range(n):
+            seed = (seed * 37 + 11) % 101
+            out.append(Q(0) if k in fixed else scale * Q(seed - 50, 40))
+        return out
+
+    def mv(A, x):
+        return [sum((A[i][j] * x[j] for j in range(len(x)) if A[i][j] != 0), Q(0)) for i in range(len(x))]
+
+    def dot(x, y):
+        return sum((a * b for a, b in zip(x, y)), Q(0))
+
+    def scenario(algo, damped, loaded, scale=Q(1), beta=Q(1, 4), gamma=Q(1, 2), alpha=None):
+        def thunk():
+            W = World(repo, lib=W0.lib)
+            md, mesh = domain_mesh(W, "TRI3")
+            dim = 2
+            mat, simu = elastic(W, mesh, dim)
+            W.set(simu, "rho", Q(7, 3))
+            if damped:
+                W.call(simu, "Set_Rayleigh_Damping_Coefs", Q(1, 5), Q(1, 7))
+            left = boundary_nodes(W, md, lambda c: c[0] == 0)
+            right = boundary_nodes(W, md, lambda c: c[0] == 2)
+            W.call(simu, "add_dirichlet", iarr(left), [Q(0), Q(0)], ["x", "y"])
+            if loaded:
+                W.call(simu, "add_surfLoad", iarr(right), [Q(3, 2) * scale, Q(-1, 3) * scale], ["x", "y"])
+            n = md.Nn * dim
+            fixed = {nn * dim + c for nn in left for c in range(dim)}
+            u0, v0 = vec(n, 7, fixed, scale), vec(n, 23, fixed, scale)
+            a0 = [Q(0)] * n
+            W.call(simu, "_Set_solutions", "elastic", XArray((n,), u0), XArray((n,), v0), XArray((n,), a0))
+            K, C, M, F = W.call(simu, "Get_K_C_M_F")
+            Kd, Cd, Md = [[_qq(v) for v in row] for row in dense(K)], [[_qq(v) for v in row] for row in dense(C)], [[_qq(v) for v in row] for row in dense(M)]
+            if len(Cd) != n:
+                Cd = [[Q(0)] * n for _ in range(n)]
+            Fv = [_qq(a) + _qq(b) for a, b in zip(polys(F.toarray() if hasattr(F, "toarray") else F), polys((lambda v: v.toarray() if hasattr(v, "toarray") else v)(W.call(simu, "Bc_vector_Neumann", "elastic"))))]
+            energy = lambda u, v: dot(v, mv(Md, v)) / 2 + dot(u, mv(Kd, u)) / 2
+            un, vn, an = u0, v0, a0
+            energies = []
+            for step, dt in enumerate((Q(1, 3), Q(1, 7), Q(1, 5), Q(1, 5))):
+                if alpha is None:
+                    W.call(simu, "Solver_Set_Hyperbolic_Algorithm", dt, W.enum(ALGO, algo), beta, gamma)
+                else:
+                    # parameters the selected scheme does not use (accepted and ignored: the scheme is defined by its name)
+                    W.call(simu, "Solver_Set_Hyperbolic_Algorithm", dt, W.enum(ALGO, algo), beta, gamma, alpha)
+                W.call(simu, "Solve")
+                u1 = [_qq(x) for x in polys(W.call(simu, "_Get_u_n", "elastic"))]
+                v1 = [_qq(x) for x in polys(W.call(simu, "_Get_v_n", "elastic"))]
+                a1 = [_qq(x) for x in polys(W.call(simu, "_Get_a_n", "elastic"))]
+                tag = f"{algo}{' damped' if damped else ''}{' loaded' if loaded else ''}, step {step + 1} (dt = {dt})"
+                for k in fixed:
+                    if u1[k] != 0:
+                        return f"{tag}: prescribed dof {k} moved to {u1[k]}"
+                # documented update relations and evaluation-point states (reference written here)
+                if algo == "newmark":
+                    for k in range(n):
+                        if k in fixed:
+                            continue
+                        if u1[k] != un[k] + dt * vn[k] + dt * dt / 2 * ((1 - 2 * beta) * an[k] + 2 * beta * a1[k]):
+                            return f"{tag}: u_(n+1) != u_n + dt v_n + dt^2/2 ((1 - 2 beta) a_n + 2 beta a_(n+1)) at dof {k}"
+                        if v1[k] != vn[k] + dt * ((1 - gamma) * an[k] + gamma * a1[k]):
+                            return f"{tag}: v_(n+1) != v_n + dt ((1 - gamma) a_n + gamma a_(n+1)) at dof {k}"
+                    ut, vt, at = u1, v1, a1
+                elif algo == "midpoint":
+                    ut = [(a + b) / 2 for a, b in zip(u1, un)]
+                    vt = [(a - b) / dt for a, b in zip(u1, un)]
+                    for k in range(n):
+                        if k not in fixed and v1[k] != 2 * (u1[k] - un[k]) / dt - vn[k]:
+                            return f"{tag}: v_(n+1) != 2 (u_(n+1) - u_n) / dt - v_n at dof {k}"
+                    at = [(a - b) / dt for a, b in zip(v1, vn)]
+                elif algo == "euler_implicit":
+                    for k in range(n):
+                        if k in fixed:
+                            continue
+                        if v1[k] != (u1[k] - un[k]) / dt:
+                            return f"{tag}: v_(n+1) != (u_(n+1) - u_n) / dt at dof {k}"
+                        if a1[k] != (v1[k] - vn[k]) / dt:
+                            return f"{tag}: a_(n+1) != (v_(n+1) - v_n) / dt at dof {k}"
+                    ut, vt, at = u1, v1, a1
+                res = [x + y + z - f for x, y, z, f in zip(mv(Kd, ut), mv(Cd, vt), mv(Md, at), Fv)]
+                for k in range(n):
+                    if k not in fixed and res[k] != 0:
+                        return f"{tag}: K u_t + C v_t + M a_t - F is about {float(res[k]):.3g} (exact arithmetic) on the free dof {k}: the returned state does not satisfy the discrete equation of motion at the scheme's evaluation point"
+                energies.append(energy(u1, v1))
+                un, vn, an = u1, v1, a1
+            if not damped and not loaded:
+                if algo == "midpoint" or (algo == "newmark" and beta == Q(1, 4) and gamma == Q(1, 2)):
+                    ref = energies[0] if algo == "newmark" else energy(u0, v0)
+                    for k, e in enumerate(energies):
+                        if e != ref:
+                            return f"{algo}, undamped and unloaded, state of magnitude {float(scale):g}: the energy 1/2 v.M v + 1/2 u.K u is {float(e):.12g} after step {k + 1} and {float(ref):.12g} before (relative change {float((e - ref) / ref):.3g}): not conserved"
+                if algo == "euler_implicit":
+                    prev = energy(u0, v0)
+                    for k, e in enumerate(energies):
+                        if e > prev:
+                            return f"backward Euler, undamped and unloaded: the energy increases at step {k + 1} ({float(prev):.6g} -> {float(e):.6g})"
+                        prev = e
+            return None
+
+        return (f"dynamics {algo}{' damped' if damped else ''}{' loaded' if loaded else ''}{'' if scale == 1 else ' tiny'}{'' if (beta, gamma) == (Q(1, 4), Q(1, 2)) else ' beta=3/10'}{'' if alpha is None else ' alpha=3/10 given'}", solve, thunk)
+
+    scen = [scenario("newmark", False, False), scenario("midpoint", False, False), scenario("euler_implicit", False, False),
+            scenario("newmark", True, True), scenario("midpoint", True, True), scenario("euler_implicit", True, True),
+            scenario("newmark", False, False, scale=Q(1, 10**12)), scenario("midpoint", False, True, scale=Q(1, 10**12)),
+            scenario("newmark", True, True, beta=Q(3, 10), gamma=Q(3, 5)), scenario("midpoint", True, True, alpha=Q(3, 10)), scenario("euler_implicit", False, True, alpha=Q(3, 10))]
+    run_scenarios(ctx, r, scen)
+
+
+# ---------------------------------------------------------------------------------------------------------------------
+# C07 / C08: measures, centroids, closed boundaries; queries and motions
+def geometry_rule(ctx, rid="R8.E1"):
+    repo = ctx.repo
+    r = ctx.rule(rid, "geometry end to end on distorted meshes of every element family: measure and centroid equal those of the tiled box; the boundary normals close the domain (integral of n = 0, |flux of x| = dim * measure); they are unchanged / transported by Translate, Rotate(90 deg) and Symmetry; a query on the deformed configuration (displacementMatrix) changes no later answer; after coordinates are assigned (a stretch) measure and centroid are those of the new geometry", min_instances=5)
+    anchor = repo.lookup_method(repo.cls("EasyFEA.FEM._mesh.Mesh"), "center")
+    W0 = World(repo)
+    MT = "EasyFEA.FEM._utils.MatrixType"
+
+    def measure_of(W, mesh, dim):
+        return W.get(mesh, {1: "length", 2: "area", 3: "volume"}[dim])
+
+    def scenario(elem):
+        def thunk():
+            W = World(repo, lib=W0.lib)
+            eq = close if elem in MASS_APPROX else same
+            md, mesh = domain_mesh(W, elem)
+            dim = md.dim
+            want_c = [Q(1), Q(1, 2), Q(1, 2) if dim == 3 else Q(0)]
+
+            def check(label, meas, cen):
+                got = measure_of(W, mesh, dim)
+                if not eq(got, meas):
+                    return f"{elem}, {label}: measure {polys(got)[0]}, the domain measures {meas}"
+                c = polys(W.get(mesh, "center"))
+                for k in range(3):
+                    if not eq(c[k], cen[k]):
+                        return f"{elem}, {label}: centroid component {'xyz'[k]} = {c[k]}, expected {cen[k]}"
+                return None
+
+            bad = check("as built", Q(2), want_c)
+            if bad:
+                return bad
+            # closed boundary
+            mass = W.enum(MT, "mass")
+            tot = [Poly.const(0)] * 3
+            flux = Poly.const(0)
+            groups = W.call(mesh, "Get_list_groupElem", dim - 1)
+            for g in groups:
+                n = XArray.from_nested(W.M.I and W.call(g, "Get_normals_e_pg", mass))
+                w = XArray.from_nested(W.call(g, "Get_weightedJacobian_e_pg", mass))
+                x = XArray.from_nested(W.call(g, "Get_GaussCoordinates_e_pg", mass))
+                for e in range(w.shape[0]):
+                    for p in range(w.shape[1]):
+                        for k in range(3):
+                            tot[k] = tot[k] + Poly.of(_pn(w[e, p])) * Poly.of(_pn(n[e, p, k]))
+                            flux = flux + Poly.of(_pn(w[e, p])) * Poly.of(_pn(n[e, p, k])) * Poly.of(_pn(x[e, p, k]))
+            for k in range(3):
+                if not eq(tot[k], 0):
+                    return f"{elem}: the integral of the boundary normal has component {'xyz'[k]} = {tot[k]}: the boundary does not close"
+            if not (eq(flux, dim * Q(2)) or eq(flux, -dim * Q(2))):
+                return f"{elem}: the flux of the position vector through the boundary is {flux}, expected +/- dim * measure = {dim * 2}"
+            # a query on the deformed configuration must not change later answers
+            g0 = W.call(mesh, "Get_list_groupElem", dim)[0]
+            U = XArray((md.Nn, 3), [Q(k % 5, 7) for k in range(md.Nn * 3)])
+            W.call(g0, "Get_GaussCoordinates_e_pg", mass, displacementMatrix=U)
+            if W.lib.gmsh[elem]["order"] == 1:
+                for g in groups[:1]:
+                    W.call(g, "Get_normals_e_pg", mass, U, False)  # (un-normalised: the deformed normals are irrational)
+            bad = check("after a query on the deformed configuration", Q(2), want_c)
+            if bad:
+                return bad
+            # rigid motions
+            W.call(mesh, "Translate", Q(3), Q(-1, 2), Q(0))
+            bad = check("after Translate(3, -1/2, 0)", Q(2), [want_c[0] + 3, want_c[1] - Q(1, 2), want_c[2]])
+            if bad:
+                return bad
+            W.call(mesh, "Symmetry", (Q(0), Q(0), Q(0)), (Q(1), Q(0), Q(0)))
+            bad = check("after Symmetry about x = 0", Q(2), [-(want_c[0] + 3), want_c[1] - Q(1, 2), want_c[2]])
+            if bad:
+                return bad
+            # assigned coordinates: a stretch by 3/2 along x
+            co = XArray.from_nested(W.get(mesh, "coord"))
+            W.set(mesh, "coord", XArray(co.shape, [(_pn(v) * Q(3, 2) if k % 3 == 0 else _pn(v)) for k, v in enumerate(co.data)]))
+            bad = check("after the coordinates were stretched by 3/2 along x", Q(3), [-(want_c[0] + 3) * Q(3, 2), want_c[1] - Q(1, 2), want_c[2]])
+            return bad
+
+        return (f"geometry {elem}", anchor, thunk)
+
+    elems = ["TRI3", "QUAD4", "TRI6", "QUAD8", "TETRA4"] + (["HEXA8", "PRISM6", "QUAD9"] if ctx.tier == "thorough" else [])
+    run_scenarios(ctx, r, [scenario(e) for e in elems])
+
+
+def _pn(v):
+    from ..e2e import _num
+
+    return _num(v)
+
+
+# ---------------------------------------------------------------------------------------------------------------------
+# C15: saved iterations
+def iterations_rule(ctx, rid="R15.E1"):
+    repo = ctx.repo
+    r = ctx.rule(rid, "saved iterations end to end (in memory): after Solve / Save_Iter under a first load, then Solve / Save_Iter under another load, Set_Iter(0), Set_Iter(1) and Set_Iter(-1) bring back exactly the displacement (and velocity / acceleration under Newmark) and the results of the time; Get_results reads without altering the simulation; arrays handed out by the getters are copies (editing them changes nothing); a later solve does not alter a stored iteration", min_instances=2)
+    anchor = repo.lookup_method(repo.cls(SIMU), "Set_Iter")
+    W0 = World(repo)
+    ALGO = "EasyFEA.Simulations.Solvers.AlgoType"
+
+    def scenario(elem, dynamic):
+        def thunk():
+            W = World(repo, lib=W0.lib, extra={"MPI_RANK": 0})
+            md, mesh = domain_mesh(W, elem)
+            dim = md.dim
+            mat, simu = elastic(W, mesh, dim)
+            W.set(simu, "rho", Q(7, 3))
+            left = boundary_nodes(W, md, lambda c: c[0] == 0)
+            right = boundary_nodes(W, md, lambda c: c[0] == 2)
+            if dynamic:
+                W.call(simu, "Solver_Set_Hyperbolic_Algorithm", Q(1, 3), W.enum(ALGO, "newmark"))
+            names = ["ux", "uy", "Sxx", "Exy", "Wdef"] + (["vx", "ay"] if dynamic else [])
+            shots = []
+            for step, (p, q) in enumerate(((Q(3), Q(-1)), (Q(-2), Q(5)), (Q(1, 2), Q(1, 3)))):
+                W.call(simu, "Bc_Init")
+                W.call(simu, "add_dirichlet", iarr(left), [Q(0)] * dim, ["x", "y"])
+                W.call(simu, "add_surfLoad", iarr(right), [p, q], ["x", "y"])
+                W.call(simu, "Solve")
+                W.call(simu, "Save_Iter")
+                shot = {nm: polys(W.call(simu, "Result", nm)) for nm in names}
+                shot["u"] = polys(W.call(simu, "_Get_u_n", "elastic"))
+                if dynamic:
+                    shot["v"] = polys(W.call(simu, "_Get_v_n", "elastic"))
+                    shot["a"] = polys(W.call(simu, "_Get_a_n", "elastic"))
+                shots.append(shot)
+                # the vector handed out is a copy: editing it must not reach the simulation or its history
+                leak = W.call(simu, "_Get_u_n", "elastic")
+                leak.data[0] = leak.data[0] + 1000
+                res = W.call(simu, "Get_results", step)
+                if isinstance(res, dict) and isinstance(res.get("displacement"), XArray):
+                    pass
+
+            def compare(k, label):
+                cur = {nm: polys(W.call(simu, "Result", nm)) for nm in names}
+                cur["u"] = polys(W.call(simu, "_Get_u_n", "elastic"))
+                if dynamic:
+                    cur["v"] = polys(W.call(simu, "_Get_v_n", "elastic"))
+                    cur["a"] = polys(W.call(simu, "_Get_a_n", "elastic"))
+                for nm, vals in shots[k].items():
+                    if len(vals) != len(cur[nm]):
+                        return f"{label}: {nm} has {len(cur[nm])} values, {len(vals)} at the time"
+                    for i, (x, y) in enumerate(zip(cur[nm], vals)):
+                        if not same(x, y):
+                            return f"{elem}{' Newmark' if dynamic else ''}, {label}: {nm}[{i}] = {x}, it was {y} when the iteration was saved"
+                return None
+
+            for k, label in ((0, "Set_Iter(0)"), (1, "Set_Iter(1)"), (-1, "Set_Iter(-1)"), (0, "Set_Iter(0) again")):
+                before = dict(simu.attrs)
+                W.call(simu, "Get_results", k)
+                W.call(simu, "Set_Iter", k)
+                bad = compare(k if k >= 0 else len(shots) - 1, label)
+                if bad:
+                    return bad
+            # a later solve does not alter the stored iterations
+            W.call(simu, "Set_Iter", -1)
+            W.call(simu, "Bc_Init")
+            W.call(simu, "add_dirichlet", iarr(left), [Q(0)] * dim, ["x", "y"])
+            W.call(simu, "add_surfLoad", iarr(right), [Q(9), Q(9)], ["x", "y"])
+            W.call(simu, "Solve")
+            W.call(simu, "Set_Iter", 1)
+            return compare(1, "Set_Iter(1) after a further solve")
+
+        return (f"iterations {elem}{' Newmark' if dynamic else ''}", anchor, thunk)
+
+    run_scenarios(ctx, r, [scenario("TRI3", False), scenario("QUAD4", False), scenario("TRI3", True)])
